@@ -8,7 +8,7 @@ plaintext to decode to exactly the scoped PDU of the request followed by less th
 replies encrypted the same way must be delivered with their exact content."""
 import json
 from vlib import env, tlc, trace, sesscheck, scripts, v3hist, rawdrv, agent as ag
-from vlib.report import Check, confirm_by_replay
+from vlib.report import Check, confirm_by_replay, timing_event
 from vlib.env import ToolError, SEED
 
 PROP = "C11"
@@ -151,7 +151,7 @@ def run(tier):
             chk.violation(dict(kind="api-history", client=info["kind"], ev=ev["ev"], op=ev.get("op"), got=ev.get("exc") or "ok"),
                           "%s session configured with auth=%s priv=%s, calls %s with datagrams %s lost: %s (%s) - a request left that is not encrypted as the configured user's" %
                           (info["kind"], info["auth"], info["priv"], info["calls"], [k for k, p in enumerate(info["plan"]) if p == "drop"], ev["ev"], ev.get("op")),
-                          dict(info=info), confirm=confirm_by_replay(c13.replay, dict(info=info)))
+                          dict(info=info), confirm=(confirm_by_replay(c13.replay, dict(info=info)) if timing_event(ev) else None))
             continue
         cipher = "des" if "des" in info["cfgname"] else "aes"
         # shape: number of sends since the private buffer was last reset (decrypt / set_keys) before the failing event
